@@ -116,6 +116,31 @@ CHECKS = {
    note="Trusted: TLC, the harness's address-to-(chunk,slot) mapping through the public chunk list. Geometry of the model is tiny; thresholds of the real "
         "allocator (64/128 chunks) are crossed by the harness only. Memory errors inside the allocator are C10's.",
    technique="TLA+ model checking (TLC) of the allocator model + TLC trace validation of recorded allocation histories"),
+ "C03": dict(level="model_checking", design="DESIGN.md §4 C03",
+   text="TLC explores all interleavings of start/resume/transfer/yield/exit/return/stop/restart for 2 coroutines + main (complete) and 3 (bounded) "
+        "on spec/Coroutine.tla, and checks the register / MXCSR / rsp / message / entry / exit contracts symbolically on spec/CtxMachine.tla, an abstract "
+        "x86-64 machine that interprets the disassembly of the context switch assembled from the current tree and the initial frame dumped after the real "
+        "cmi_coroutine_context_init. TLC-exported histories run on the real library (harness/coro_probe) with sentinels in all callee-saved registers and the "
+        "MXCSR control bits, stack canaries and hashes; every trace is validated by TLC against spec/CoroutineTrace.tla.",
+   note="Trusted: TLC; objdump and the instruction semantics in CtxMachine.tla (14 instruction forms; anything else = machinery failure); the assembly shim; "
+        "SysV-ABI compliance of compiled C. Dynamic part is sentinel-valued; rflags and the x87 control word are not judged.",
+   technique="TLA+ model checking + symbolic machine over the real disassembly + TLC trace validation"),
+ "C18": dict(level="model_checking", design="DESIGN.md §4 C18",
+   text="spec/DataSet.tla states the laws (sort = ascending permutation keeping (t,w) tags, exact copy, true weighted median, ordered in-range five-number "
+        "summary, histogram accounting, ACF lag 0 and affine invariance) over order positions and integer weights; TLC model-checks that an in-place heapsort "
+        "design and reference median/quartile/binning designs satisfy them for all small inputs. The identical input space plus sizes around 1024/2048/4096 is "
+        "run on the real cmb_dataset / cmb_timeseries by harness/ds_replay and every recorded call is judged by TLC against spec/DataSetTrace.tla.",
+   note="Trusted: the harness's encoding of doubles as order positions, its parsing of report texts, its permutation witness (re-checked by the spec), the 1e-7 "
+        "ACF quantisation, TLC. PACF and rounding-error growth are not decided; values near DBL_MAX excluded.",
+   technique="TLA+ laws over order positions + TLC trace validation of the real library"),
+ "C19": dict(level="model_checking", design="DESIGN.md §4 C19",
+   text="TLC checks the experiment runner design (spec/Experiment.tla: atomic trial dispenser, join-all, thread-local engine state re-initialised by seeding) "
+        "for every interleaving up to 3 workers x 4 trials with the property monitor (spec/ExperimentMon.tla) and direct invariants; sensitivity runs show the "
+        "monitor rejects each forbidden deviation. The same monitor judges real cimba_run_experiment executions (trial counts around the core count, struct "
+        "sizes 8..4104, trial bodies over all sampler families, flips, processes, logger flags; schedule shapes incl. completion orders exported from TLC) "
+        "against a single-thread reference.",
+   note="Trusted: harness/exp_replay.c (stamps, digests, trial bodies), TLC, and that the OS plus forced plans produce representative schedules; no TSan.",
+   technique="monitor-as-function TLA+ design model + trace validation + forced-schedule replay"),
 }
 NA = {}
 
